@@ -842,3 +842,123 @@ PROPS.update({
             "assumptions": FD_ASSUME + ["answers compared as multisets of reified answers up to renaming and constraint-set "
                                         "equivalence (ground-instance sets coincide with that for tree constraints)"]},
 })
+
+
+# ----------------------------------------------------------------------------- C24
+
+ALL_RELS = '{"member", "member1", "append", "rember", "permute", "distinct", "cons", "first", "rest", "empty"}'
+
+
+def plan_c24(ctx):
+    r = vlib.run_mc("C24_lib", "MC_Lib", {"Emit": "TRUE", "Slots": "32", "Rels": ALL_RELS}, ["LibCorrect", "EmitCase"],
+                    None, workers=12)
+    ctx["mc"].append(r)
+    for n, c in enumerate(r["cases"]):
+        qv = sorted(gen.vars_in(c["args"]))
+        add(ctx, [{"id": "C24-m-%d" % n, "kind": "program", "mode": "query", "lib": c["rel"], "args": c["args"],
+                   "qvars": qv, "body": [["call", c["rel"], c["args"]]], "take": 20, "budget": 400000, "after": 1,
+                   "final_probe": False}])
+    # random: longer lists, repeated elements, more variables
+    rng = ctx["rng"]
+    for i in range(T(ctx, 300, 6000)):
+        rel = rng.choice(["member", "member1", "append", "rember", "permute", "distinct", "cons", "first", "rest", "empty"])
+        el = lambda: ["num", rng.choice([1, 2])] if rng.random() < 0.75 else ["var", rng.choice([1, 2, 3])]
+        lst = lambda n=3: (["list", [el() for _ in range(rng.randint(0, n))]] if rng.random() < 0.85 else ["var", rng.choice([1, 2, 3])])
+        if rel in ("member", "member1"):
+            args = [el(), lst()]
+        elif rel == "append":
+            args = [lst(2), lst(2), lst(3)]
+        elif rel == "rember":
+            args = [el(), lst(), lst()]
+        elif rel == "permute":
+            args = [["list", [el() for _ in range(rng.randint(0, 3))]], lst()]
+        elif rel == "distinct":
+            args = [["list", [el() for _ in range(rng.randint(0, 3))]]]
+        elif rel == "cons":
+            args = [el(), lst(2), lst(3)]
+        elif rel in ("first", "rest"):
+            args = [lst(), el() if rel == "first" else lst(2)]
+        else:
+            args = [lst(1)]
+        qv = sorted(gen.vars_in(args))
+        add(ctx, [{"id": "C24-r-%d" % i, "kind": "program", "mode": "query", "lib": rel, "args": args, "qvars": qv,
+                   "body": [["call", rel, args]], "take": 20, "budget": 400000, "after": 1, "final_probe": False}])
+
+
+PROPS.update({
+    "C24": {"plan": plan_c24, "reasons": {"lib_wrong_answer", "lib_duplicate_answer", "lib_missing_answer", "panic"},
+            "rule": "exhaustive: every mode instance of MC_Lib (each argument ground / partially ground / a variable, lists "
+                    "of length <= 3 over {1,2} with repeats); random: longer and more entangled arguments.  For every "
+                    "ground valuation of the variables over {1, 2, fresh atom, lists of them up to length 3} whose list "
+                    "positions hold proper lists, the number of answers having it as an instance is compared with the "
+                    "sequence-level relation (member: one per matching position; permute: membership only).  Infinite "
+                    "modes: the first 20 answers, 'no wrong / no duplicate answer' only.",
+            "nontrivial": lambda c: len(gen.vars_in(c.get("args", []))) > 0,
+            "assumptions": ["valuation universe of 3 atoms and lists of length <= 3; tuples whose list positions are not "
+                            "proper lists are not judged", "TLC, Json/IOUtils, harness projectors"]},
+})
+
+
+# ----------------------------------------------------------------------------- C20
+
+def encode_cmp(x):
+    """Compound -> tagged list twin: T(a, ..) becomes ["s:T", a, ..]."""
+    if isinstance(x, list):
+        if len(x) == 3 and x[0] == "cmp":
+            return ["list", [["sym", "s:" + x[1]]] + [encode_cmp(a) for a in x[2]]]
+        return [encode_cmp(y) for y in x]
+    return x
+
+
+def plan_c20(ctx):
+    r = mc(ctx, "cmp", "MC_Unify", {"K": "1", "Sched": "{0}", "Tag": '"ucmp"', "WithPrior": "FALSE"},
+           ["Den", "AcyclicInv", "UnifiedIdentical", "UserBalance", "ExtensionExact", "EmitCase"],
+           {"GoalsAfter": "CGoalsAfter", "Vals": "CVals"})
+    cases = store_cases(ctx, r, "uc")
+    add(ctx, cases[::T(ctx, 4, 1)])
+    rng = ctx["rng"]
+    for i in range(T(ctx, 500, 10000)):
+        nv = rng.randint(1, 4)
+        tg = gen.TermGen(rng, range(1, nv + 1), compounds=True, wrap=True)
+        goals = []
+        for _ in range(rng.randint(2, 5)):
+            g = gen.tree_goal(tg, rng.randint(1, 3), p_neq=0.35)
+            goals.append(g)
+        if not any("cmp" in str(g) for g in goals):
+            goals.append(["eq", ["var", 1], tg.term(2)])
+        g = "C20-t%d" % i
+        add(ctx, [query(ctx, g + "-c", nv, goals, group=g, enc=True),
+                  query(ctx, g + "-l", nv, encode_cmp(goals), group=g, gcheck="same_bag")])
+    # FD labelling through compound fields, and a compound against a list / literal
+    for i in range(T(ctx, 250, 5000)):
+        nv = rng.randint(2, 3)
+        vs = list(range(1, nv + 1))
+        lo, hi = rng.choice([(0, 1), (1, 3), (-1, 1)])
+        body = [["dom", ["list", [["var", v] for v in vs]], ["itv", lo, hi]]]
+        body += [gen.fd_constraint(rng, vs, lo, hi) for _ in range(rng.randint(0, 2))]
+        ty = rng.choice(["Pair", "Node", "Tuple", "Tree", "Box1"])
+        k = gen.CMP_ARITY[ty]
+        args = [["var", rng.choice(vs)] if rng.random() < 0.8 else ["num", rng.randint(lo, hi)] for _ in range(k)]
+        if rng.random() < 0.4 and k >= 2:
+            args[0] = ["list", [["var", vs[0]], ["cmp", "Box1", [["var", vs[-1]]]]]]
+        q = nv + 1
+        body.append(["eq", ["var", q], ["cmp", ty, args]])
+        rng.shuffle(body)
+        g = "C20-f%d" % i
+        add(ctx, [{"id": g + "-c", "kind": "program", "mode": "query", "qvars": [q], "vars": vs, "body": body,
+                   "after": 1, "group": g, "enc": True},
+                  {"id": g + "-l", "kind": "program", "mode": "query", "qvars": [q], "vars": vs,
+                   "body": encode_cmp(body), "after": 1, "group": g, "gcheck": "same_bag"}])
+
+
+PROPS.update({
+    "C20": {"plan": plan_c20, "reasons": R_STORE | R_ANSWERS | R_REIFY | {"group_bags_differ", "group_outcomes_differ", "panic"},
+            "rule": "exhaustive: every ordered pair of the compound universe of MC_Unify (Pair, Box1, Tuple, nested, mixed "
+                    "with lists) unified on State; random: eq/neq programs over Pair, Box1, Node{l,r}, Tree, Rust tuples and "
+                    "Option (Some(x)), each next to its tagged-list twin (implementation against implementation, and both "
+                    "against the reference); FD programs whose query variable is a compound of FD variables.  "
+                    "Non-trivial: the case mentions a compound.",
+            "nontrivial": lambda c: "cmp" in vlib.goal_tags(c),
+            "assumptions": ["compound family of the harness (harness/src/build.rs): Pair, Box1, Node, Tree, (a,b), Option",
+                            "TLC, Json/IOUtils, harness projectors"]},
+})
